@@ -712,6 +712,9 @@ def gate_semantics(ast, path, stmts, env_names, limited_name, notfinished):
     return True, ""
 
 
+FORWARD_CTX = {}
+
+
 def forward_only(body, e, pcn, depth=0):
     """Is the value of e certainly >= the program counter `pcn` (so that `pc = e` cannot be a back edge)?  True for `pc`, `v`, `e + k`
     (k a non-negative literal) where v is a local initialised from such a value whose only other writes are `v += k`."""
@@ -720,11 +723,38 @@ def forward_only(body, e, pcn, depth=0):
         return False
     if e["t"] == "Binary" and e["op"] == "+" and int_lit(e["right"]) is not None and int_lit(e["right"]) >= 0:
         return forward_only(body, e["left"], pcn, depth + 1)
+    if e["t"] in ("Call", "MethodCall") and FORWARD_CTX.get("fns"):
+        # a helper of the same file: every value it returns must be forward relative to the parameter that receives the forward value
+        name = pm._callee_name(e)
+        fn = FORWARD_CTX["fns"].get(name) if name else None
+        if fn is not None and depth < 3:
+            pa = pm._call_args(e, fn)
+            if pa is not None:
+                ps, args = pa
+                ps = [p_.split("\0")[0] for p_ in ps]
+                fwd = [p_ for p_, a_ in zip(ps, args) if forward_only(body, a_, pcn, depth + 1)]
+                def monotone(fb, nm):
+                    for a_ in walk_t(fb, "Assign"):
+                        if path_name(strip_paren(a_["left"])) == nm:
+                            return False
+                    for b_ in walk_t(fb, "Binary"):
+                        if b_["op"].endswith("=") and b_["op"] not in ("==", "!=", "<=", ">=") and path_name(strip_paren(b_["left"])) == nm:
+                            if not (b_["op"] == "+=" and int_lit(b_["right"]) is not None and int_lit(b_["right"]) >= 0):
+                                return False
+                    return not any(r_.get("mut") and path_name(strip_paren(r_["expr"])) == nm for r_ in walk_t(fb, "Reference"))
+                if len(fwd) == 1 and not pm._has(fn["body"], ("Closure",)) and monotone(fn["body"], fwd[0]):
+                    rets = [r_["expr"] for r_ in walk_t(fn["body"], "Return") if r_.get("expr") is not None]
+                    st_ = fn["body"]["stmts"]
+                    if st_ and st_[-1]["t"] == "ExprStmt" and not st_[-1]["semi"]:
+                        rets.append(st_[-1]["expr"])
+                    return bool(rets) and all(forward_only(fn["body"], r_, fwd[0], depth + 1) for r_ in rets)
+        return False
     n = path_name(e)
     if n is None:
         return False
     if n == pcn:
         return True
+    # a by-value parameter that is never written is the value itself
     inits = [l for l in walk_t(body, "Local") if l["pat"]["t"] == "PIdent" and l["pat"]["name"] == n]
     if len(inits) != 1 or inits[0].get("init") is None or not forward_only(body, inits[0]["init"], pcn, depth + 1):
         return False
@@ -791,6 +821,7 @@ def run_lim(res, ast, with_jit=True):
         res.check(len(jumps) >= 1 and cut < len(st), "LIM-BACKEDGE",
                   f"{INPLACE}|execute_in|]-order", w, "the jump back (`pc = target`) must come after the budget gate")
         # no other backward assignment of pc
+        FORWARD_CTX["fns"] = pm.local_fns(ast, INPLACE)
         back = []
         for m in walk_t(f["node"]["body"], "Match"):
             for a in m["arms"]:
